@@ -66,7 +66,12 @@ REFINED = ["entry guards mirrored from the code and proved equivalent to the doc
            "round 6: Context::powi working precisions (`precision + guard_bits`, `precision + guard_digits`) REGENERATED from exp.rs "
            "(Gen/SizeGuards powi_rev_precision / powi_work_precision), mirrored (fPowiRevPrecision, fPowiWorkPrecision, fPowiPrecisionFits), "
            "proved equal, linked to C11's powiWorkPrec (powi_work_precision_is_c11s); fbig_powi_precision_fits (all p, e with "
-           "p + bit_len(e) + 192 <= usize::MAX) and fbig_powi_precision_counterexample (= the finding's class boundary usize::MAX-66/-67)"]
+           "p + bit_len(e) + 192 <= usize::MAX) and fbig_powi_precision_counterexample (= the finding's class boundary usize::MAX-66/-67)",
+           "round 7: FBig::ulp — the hypothesis `precision <= 2^62` of fbig_ulp_guard_partial weakened to the weakest possible one "
+           "(fbig_ulp_guard_sharp_partial: prec = 0, or infinite, or isize::MIN <= exp + digits - prec; every precision up to usize::MAX); "
+           "fbig_ulp_guard_exact_class: on canonical moderate operands guard == documentation for all kinds IFF that hypothesis holds, and "
+           "outside it the code returns where ExponentOverflow is documented (the class of finding float_precision_isize_cast as a theorem, "
+           "not only its witness); closed form fbig_ulp_guard_prec_bound_partial: precision <= 3*2^61 (Proofs/Panic/UlpSharp.lean)"]
 FRONTIER = ["reservations only partly tied to the documentation: pow of an EVEN base with odd part > 1 (second-stage `<<` request depends "
             "on the value odd^e: `guardPow = none`, decided by correspondence); pow of a >= 3-word base (no reservation exists in the "
             "code: finding, counterexample theorem); the converse of (S1) is false in the band between reservation and result size "
@@ -144,6 +149,8 @@ THEOREMS += ["Dashu.Props.C16Gen." + t for t in (
     "from_chunks_len_is_generated from_chunks_guard_is_generated to_float_assert_is_generated to_float_shift_is_generated to_float_need_digits_in_usize "
     "powi_precision_is_generated powi_work_precision_is_c11s").split()]
 THEOREMS += ["Dashu.Props.C16.fbig_powi_precision_fits", "Dashu.Props.C16.fbig_powi_precision_counterexample"]
+# round 7: FBig::ulp at every precision up to usize::MAX (hypothesis = the documented underflow clause is silent; exact class)
+THEOREMS += ["Dashu.Props.C16." + t for t in ("fbig_ulp_guard_sharp_partial", "fbig_ulp_guard_exact_class", "fbig_ulp_guard_prec_bound_partial")]
 
 M = 2 ** 64 - 1
 IMAX = 2 ** 63 - 1
